@@ -1,5 +1,8 @@
 import AGV.Util.Digits
+import AGV.Util.F64
 import AGV.Util.Judge
 import AGV.Util.Sexp
+import AGV.Core.Cache
 import AGV.Core.LValue
+import AGV.Core.PAst
 import AGV.Core.Types
